@@ -8,6 +8,7 @@ from harness import gen_stacks as G
 
 mpmath.mp.dps = 80
 UNDEF = "undef"
+TINY = mpmath.mpf("1e-60")
 
 
 class Skip(Exception):
@@ -99,6 +100,10 @@ def mp_eval(stack, x, c, want_max=False):
                     v = mp_op(node, a, b)
                 except (OverflowError, ValueError, ZeroDivisionError, mpmath.libmp.NoConvergence):
                     raise Skip()
+        if v is not UNDEF and v != 0 and abs(v) < TINY:
+            # a value of magnitude 1e-60 at a point with O(1) data is the rounding residue of a cancellation (or of log(exp(1))):
+            # whether the exact value is zero cannot be decided here, and zero matters (division, log, 0^y): undecidable point
+            raise Skip()
         vals[i] = v
         if v is not UNDEF and abs(v) > mx:
             mx = abs(v)
@@ -160,6 +165,8 @@ def mp_eval_expr(e, x, cval):
     vals = [mp_eval_expr(o, x, cval) for o in e.operands]
     if any(v is UNDEF for v in vals):
         return UNDEF
+    if any(v != 0 and abs(v) < TINY for v in vals):
+        raise Skip()
     try:
         if op in (G.ADD, G.MUL):
             acc = mpmath.mpf(0 if op == G.ADD else 1)
